@@ -977,7 +977,7 @@ class Application():
             try:
                 handler = self.__shandlers[status_code][req.method_number]
                 req.error_handler = handler
-                return handler(req, **kwargs)
+                return to_response(handler(req, **kwargs))
             except HTTPException as http_err:
                 response = http_err.make_response()
                 if response:
@@ -1005,7 +1005,7 @@ class Application():
         if handler:
             try:
                 req.error_handler = handler
-                return handler(req, error)
+                return to_response(handler(req, error))
 
             except HTTPException as http_err:
                 response = http_err.make_response()
